@@ -202,6 +202,9 @@ func (b *unboundBuilder) Parse(s string) (*Literal, error) {
 	if idx < 0 {
 		return nil, fmt.Errorf("literal.Parse: text encoded literals must have a type; missing in %s", raw)
 	}
+	if idx < 1 {
+		return nil, fmt.Errorf("literal.Parse: text encoded literals must have a quoted value before the type; missing in %s", raw)
+	}
 	v := raw[1:idx]
 	t := raw[idx+len("\"^^type:"):]
 	switch t {
@@ -226,6 +229,9 @@ func (b *unboundBuilder) Parse(s string) (*Literal, error) {
 	case "text":
 		return b.Build(Text, v)
 	case "blob":
+		if len(v) < 2 {
+			return nil, fmt.Errorf("literal.Parse: could not convert value %q to blob", v)
+		}
 		values := v[1 : len(v)-1]
 		if values == "" {
 			return b.Build(Blob, []byte{})
